@@ -7,26 +7,46 @@
                                `decodeFuncFor` (Load · Build with nested calls · Store) on any types, from a
                                cold or a warm cache: every plan anybody obtains for `ty` is `build ty`, the
                                cache only ever holds pairs `(ty, build ty)`; results are those of a
-                               sequential run / a fresh process.
-    2  `encoder_reuse`         for every history on an encoder — including calls that panicked half-way and were
-                               recovered — `…; Clear; encode m` behaves as on a new encoder, on EVERY back end
-                               (`C20_reuse_full`). Before /repo 55f108f this was false of the XML writer
-                               (`old_xml_clear_after_abort`, `old_xml_reuse_full_false`): the defect this
-                               property found.
+                               sequential run / a fresh process. ASSUMES: `sync.Map` Load/Store atomic; the plan
+                               builder is a function of the type and its sub-plans (`Builder.combine`).
+    2  `encoder_reuse`         an `Encoder` is modelled with the state Go keeps between calls: version cell, output
+                               buffer WITH its spare capacity and the stale bytes of earlier messages, identity of
+                               the backing array, and for XML the `xml.Encoder` (element stack, indentation flags,
+                               unflushed output). `Clear` is what the code does (cell := nil, `buf[:0]` / `Reset`,
+                               a new `xml.Encoder`), NOT "become fresh". Proved: after any history — typed
+                               messages, direct writer calls, calls that panicked at any point inside any number
+                               of open structures — and a `Clear`, every continuation is OBSERVED (return /
+                               panic of each call, content of each `Bytes()`) exactly as on a new encoder, on the
+                               binary, XML, JSON and text writers, for every token rendering (`Render`).
+                               The proof is an invariant: `Eqv` (same cell, visible bytes, xml.Encoder state;
+                               capacity / stale bytes / array identity ignored) is preserved by every writer call
+                               (`eqv_indistinguishable`) and `Clear` reaches `Eqv fresh` from any state
+                               (`clear_from_any_state`). An operation that looked at the spare capacity would break
+                               it (`reading_spare_capacity_is_history_dependent`).
+       `binary_writer_appends_enc`   the binary writer (placeholder length patched after the children) appends
+                               exactly `Wire.enc` of the items, whatever the backing array holds.
+       `bytes_stable_until_clear`, `bytes_alias_overwritten`   `Bytes()` returns the internal array (documented):
+                               the slice keeps its content until the next `Clear`; after `Clear` + encode it shows
+                               the NEW message. Callers must copy or consume it before (assumption of C20).
        `version_leaks_without_clear`   the honest companion: WITHOUT `Clear` the cell left by one message gates
-                               the fields of a following header-less value. This is the documented contract of
-                               `Clear` ("making the encoder reusable"), not a defect.
+                               the fields of a following header-less value (documented contract of `Clear`).
        `full_message_ignores_cell`     …but a Request/ResponseMessage sets the cell from its own header before
                                anything reads it: whole messages are immune even without `Clear`.
-    3  `decoder_fresh`, `marshal_fresh`   `UnmarshalTTLV` / `MarshalTTLV` build a new Decoder / Encoder: cell `none`.
+       `old_xml_clear_after_abort`, `old_xml_reuse_full_false`   the defect this property found (fixed in /repo
+                               55f108f), on an explicit model of the old `xmlWriter.Clear`.
+    3  `fresh_encoder_is_marshal`   `Bytes(new encoder; encode m)` = `MarshalTTLV(m)`.
     4  `nested_shares_cell`    within one message every nested field loop sees the header's version
                                (= C05.message_gated_by_header_version), and `Clear` empties the cell.
 
   NOT proved here: data-race freedom. The Go memory model is not modelled; the atomicity of `sync.Map.Load` /
   `Store` is an assumption of the step relation (DESIGN §7). That part of C20 is reduced to structural facts
   checked on the Go sources plus race-detector runs by the `cache` engine (go/cmd/harness/cache.go).
+  Token texts (`Render`), `encoding/xml`'s printer as transcribed in `XmlEnc`, `bytes.Buffer` and `append` as
+  transcribed in `GoBuf` are modelling assumptions, tied to the code by the `enc.hist` correspondence lines
+  (byte-exact on all four writers, including the output of calls that panicked).
 -/
 import KmipModel.Lemmas.CacheLemmas
+import KmipModel.Lemmas.CacheReuseLemmas
 import KmipModel.Lemmas.CacheCellLemmas
 import KmipModel.Gen.Schema
 namespace Kmip.C20
@@ -171,29 +191,70 @@ example : (run (schemaBuilder Gen.schema) (init [[0, 2], [2, 0]]) (roundRobin 2 
 
 /-! ## 2 — a reused encoder -/
 
-/-- 2a. **Every history** `h` (any calls, any messages, any versions, aborted calls leaving any junk — a cell,
-    partial output, open structures), on **every back end** (binary, XML, JSON, text), from any starting state:
-    after `Clear` the encoder is the new encoder — whatever is done next (`ops`, e.g. `[encode m]`) produces the
-    same state, hence the same `Bytes()`, and the same outcomes as on a new encoder. -/
-theorem encoder_reuse (S : Schema) (b : Backend) (st0 : Encoder) (h ops : List Op) :
-    runOps S b st0 (h ++ .clear :: ops) =
-      ((runOps S b fresh ops).1, (runOps S b st0 h).2 ++ true :: (runOps S b fresh ops).2) :=
-  reuse_gen (clearOp b) S st0 h ops (clearOp_fresh b _)
+/-- 2a. **`Clear` from ANY state** — any cell, any buffer content, capacity and stale bytes, any element stack /
+    pending output / flags of the `xml.Encoder` (e.g. what a call that panicked inside three open structures
+    left) — returns normally and leads to a state `Eqv` to the new encoder's. Not by definition: `clearOp` keeps
+    the backing array (`buf[:0]`), so the two states DIFFER (`cleared_is_not_fresh`). -/
+theorem clear_from_any_state (st : Encoder) : Eqv (clearOp st).1 (fresh st.be) ∧ (clearOp st).2 = true :=
+  clearOp_eqv_fresh st
 
-/-- 2b. the full statement, on every back end: `state(h; Clear; ops) = state(new; ops)`. -/
-theorem C20_reuse_full (S : Schema) (b : Backend) (h ops : List Op) :
-    (runOps S b fresh (h ++ .clear :: ops)).1 = (runOps S b fresh ops).1 := by
-  rw [encoder_reuse S b fresh h ops]
+/-- 2b. **What `Eqv` ignores is unobservable**: two states with the same back end, cell, visible bytes and
+    xml.Encoder state — whatever their capacities, stale bytes and backing arrays — yield the same observations
+    (normal return or panic of every call, content of every `Bytes()`) under every history, and stay `Eqv`.
+    This is the invariant: every writer call of every back end preserves it (`wCall_eqv`; for the binary writer
+    it needs that the length patch of `Struct` always lands inside the slice, `wCall_framesOk`). -/
+theorem eqv_indistinguishable (R : Render) (S : Schema) (ops : List Op) (s1 s2 : Encoder) (h : Eqv s1 s2) :
+    (runOps R S s1 ops).2 = (runOps R S s2 ops).2 ∧ Eqv (runOps R S s1 ops).1 (runOps R S s2 ops).1 :=
+  ⟨(runOps_eqv R S ops h).2, (runOps_eqv R S ops h).1⟩
 
-/-- 2c. In particular the bytes: `Bytes(h; Clear; encode m) = Bytes(new; encode m) = MarshalTTLV(m)`. -/
-theorem encoder_reuse_bytes (S : Schema) (b : Backend) (h : List Op) (m : Msg) (j : Junk)
+/-- 2c. **History independence**: from any state `st0`, after ANY history `h` (typed messages of any version,
+    direct writer calls, calls aborted by a panic anywhere — `Op.raw cs true`, `Junk` — `Bytes`, earlier
+    `Clear`s) and a `Clear`, every continuation `ops` is observed exactly as on a NEW encoder of that back end
+    (binary, XML, JSON or text), and ends in an equivalent state. For every rendering `R` of the tokens. -/
+theorem encoder_reuse (R : Render) (S : Schema) (st0 : Encoder) (h ops : List Op) :
+    (runOps R S st0 (h ++ .clear :: ops)).2 =
+        (runOps R S st0 h).2 ++ ⟨true, none⟩ :: (runOps R S (fresh st0.be) ops).2 ∧
+    Eqv (runOps R S st0 (h ++ .clear :: ops)).1 (runOps R S (fresh st0.be) ops).1 :=
+  history_independent R S st0 h ops
+
+/-- 2d. the full statement, from a new encoder of every back end. -/
+theorem C20_reuse_full (R : Render) (S : Schema) (be : Backend) (h ops : List Op) :
+    (runOps R S (fresh be) (h ++ .clear :: ops)).2 =
+      (runOps R S (fresh be) h).2 ++ ⟨true, none⟩ :: (runOps R S (fresh be) ops).2 :=
+  (encoder_reuse R S (fresh be) h ops).1
+
+/-- 2e. The binary writer in ANY state (any stale content under the slice being extended): a typed encode that
+    the codec completes returns normally and appends exactly `encList items` — the bytes `Wire.enc` specifies,
+    with every structure's placeholder patched to the length of its children. -/
+theorem binary_writer_appends_enc (R : Render) (S : Schema) (st : Encoder) (m : Msg) (j : Junk)
+    (items : List Item) (c1 : Option Ver) (hbe : st.be = .ttlv)
+    (he : encodeFrom S m st.cell = .ok (items, c1)) :
+    (encodeOp R S st m j).2 = true ∧ (encodeOp R S st m j).1.buf.vis = st.buf.vis ++ encList items ∧
+      (encodeOp R S st m j).1.cell = c1 :=
+  encodeOp_ttlv_ok R S st m j items c1 hbe he
+
+/-- 2f. In particular the bytes: `…; Clear; encode m; Bytes()` returns `MarshalTTLV(m)` after every history. -/
+theorem encoder_reuse_bytes (R : Render) (S : Schema) (h : List Op) (m : Msg) (j : Junk)
     (bs : Bytes) (hm : marshal S m.d m.tag m.v = .ok bs) :
-    (runOps S b fresh (h ++ [.clear, .encode m j])).1.bytes = bs := by
-  rw [encoder_reuse S b fresh h [.encode m j]]
-  exact (fresh_encode_bytes S b m j bs hm).1
+    (runOps R S (fresh .ttlv) (h ++ [.clear, .encode m j, .bytes])).2 =
+      (runOps R S (fresh .ttlv) h).2 ++ [⟨true, none⟩, ⟨true, none⟩, ⟨true, some bs⟩] := by
+  rw [C20_reuse_full R S .ttlv h [.encode m j, .bytes], fresh_encode_bytes R S m j bs hm]
+
+/-! ### non-vacuity: concrete writers, stale memory, aborted calls -/
+
+/-- a rendering for the examples (one-letter tokens; the tag's low byte stands for the name). -/
+def demoR : Render where
+  xmlStart t := [60, t.toUInt8, 62]                 -- <t>
+  xmlEnd t := [60, 47, t.toUInt8, 62]               -- </t>
+  xmlLeaf it := [60, it.tag.toUInt8, 32, it.ty.toUInt8, 62]
+  xmlLeafEnd it := [60, 47, it.tag.toUInt8, 62]
+  jsonHead t ty := [123, t.toUInt8, ty.toUInt8, 58]
+  jsonVal it := [it.ty.toUInt8]
+  textHead t ty := [t.toUInt8, ty.toUInt8, 58]
+  textVal it := [it.ty.toUInt8]
 
 /-- a two-field struct `{0x540001 int32, 0x540002 interval}`; a negative interval makes the writer panic
-    ("interval cannot be negative") after the structure has been opened. -/
+    ("interval cannot be negative") after the structure has been opened and the first field written. -/
 def tinySchema : Schema where
   structs := [{ fields := [{ tag := 0x540001, kind := .i32 }, { tag := 0x540002, kind := .interval }],
                 defTag := 0x540000 }]
@@ -207,57 +268,118 @@ def tinySchema : Schema where
 def badMsg : Msg := { d := 0, tag := 0, v := .struct [.int 1, .int (-1)] }
 def goodMsg : Msg := { d := 0, tag := 0, v := .struct [.int 1, .int 1] }
 
-/-- the history: an encode that panics inside the structure (one element left open), recovered by the caller. -/
-def abortedHistory : List Op := [.encode badMsg { opened := 1 }]
+/-- what the aborted call did before it panicked: `Struct(0x540000)` opened, `Integer(0x540001, 1)` written. -/
+def abortJunk : Junk := { calls := [.open 0x540000, .leaf (.int 0x540001 1)] }
 
-/-- 2a is not vacuous on histories with aborted calls: the aborted call fails, `Clear` and the next call succeed,
-    on the XML back end as on the binary one. -/
-example : (runOps tinySchema .xml fresh (abortedHistory ++ [.clear, .encode goodMsg {}])).2
-    = [false, true, true] := by decide +kernel
-example : (runOps tinySchema .ttlv fresh (abortedHistory ++ [.clear, .encode goodMsg {}])).2
-    = [false, true, true] := by decide +kernel
-example : (runOps tinySchema .xml fresh [.encode goodMsg {}]).2 = [true] := by decide +kernel
+/-- the history: a long message, then an encode that panics inside the structure, recovered by the caller;
+    also a direct use of the writer API that panics two structures deep. -/
+def abortedHistory : List Op :=
+  [.encode goodMsg {}, .bytes, .encode badMsg abortJunk,
+   .raw [.open 0x540010, .open 0x540011, .leaf (.bool 0x540012 true)] true]
+
+/-- the encoder after that history and a `Clear` is NOT the new encoder: its array still holds the old bytes… -/
+theorem cleared_is_not_fresh :
+    (runOps demoR tinySchema (fresh .ttlv) (abortedHistory ++ [.clear])).1 ≠ fresh .ttlv ∧
+    (runOps demoR tinySchema (fresh .ttlv) (abortedHistory ++ [.clear])).1.buf.vis = [] ∧
+    ((runOps demoR tinySchema (fresh .ttlv) (abortedHistory ++ [.clear])).1.buf.stale.take 8
+      = [0x54, 0, 0, 1, 0, 0, 0, 0x20]) := by
+  refine ⟨?_, ?_, ?_⟩
+  · intro h
+    have := congrArg (fun s => s.buf.stale.length) h
+    revert this; decide +kernel
+  · decide +kernel
+  · decide +kernel
+
+/-- …and yet 2c: the aborted calls fail, `Clear` and the next calls succeed and produce the bytes of a new
+    encoder, on each of the four writers (here checked by evaluation; 2c is the general statement). -/
+example : ∀ be ∈ [Backend.ttlv, .xml, .json, .text],
+    (runOps demoR tinySchema (fresh be) (abortedHistory ++ [.clear, .encode goodMsg {}, .bytes])).2
+      = [⟨true, none⟩, (runOps demoR tinySchema (fresh be) [.encode goodMsg {}, .bytes]).2.getD 1 default,
+         ⟨false, none⟩, ⟨false, none⟩, ⟨true, none⟩]
+        ++ (runOps demoR tinySchema (fresh be) [.encode goodMsg {}, .bytes]).2 := by decide +kernel
+
+/-- the XML writer after the two aborted calls: three elements open, output pending in the `xml.Encoder`. -/
+example : (runOps demoR tinySchema (fresh .xml) abortedHistory).1.xml.tags = [0x540011, 0x540010, 0x540000] ∧
+    (runOps demoR tinySchema (fresh .xml) abortedHistory).1.xml.depth = 3 ∧
+    (runOps demoR tinySchema (fresh .xml) (abortedHistory ++ [.clear])).1.xml = {} := by decide +kernel
+
+/-- the text writer separates top-level items by a newline IFF the buffer is not empty: without `Clear` the second
+    message starts with `\n`, after `Clear` it does not. -/
+example : ((runOps demoR tinySchema (fresh .text) [.raw [.leaf (.int 1 1)] false, .raw [.leaf (.int 2 2)] false, .bytes]).2.getD 2 default).out
+      = some [1, 2, 58, 2, 10, 2, 2, 58, 2] ∧
+    ((runOps demoR tinySchema (fresh .text) [.raw [.leaf (.int 1 1)] false, .clear, .raw [.leaf (.int 2 2)] false, .bytes]).2.getD 3 default).out
+      = some [2, 2, 58, 2] := by decide +kernel
+
+/-- `buf = buf[:len+n]`: extending the slice over the spare capacity instead of appending (the "zero padding is
+    already there" shortcut of seeded mutant C20-3). -/
+def extendOver (b : GoBuf) (n : Nat) : GoBuf :=
+  { b with vis := b.vis ++ b.stale.take n, stale := b.stale.drop n }
+
+/-- 2g. **The invariant has teeth**: an operation that reads the spare capacity is NOT a congruence for `Eqv` —
+    on a cleared encoder it exposes bytes of the previous message where a new encoder has zeroes. A writer using
+    it would falsify 2b/2c; the model can express (and the engine observes, `enc.hist`) exactly this difference. -/
+def usedEnc : Encoder :=
+  (runOps demoR tinySchema (fresh .ttlv) [.encode goodMsg {}, .clear, .raw [.leaf (.int 1 1)] false]).1
+def newEnc : Encoder := (runOps demoR tinySchema (fresh .ttlv) [.raw [.leaf (.int 1 1)] false]).1
+
+theorem reading_spare_capacity_is_history_dependent :
+    Eqv usedEnc newEnc ∧ (extendOver usedEnc.buf 4).vis ≠ (extendOver newEnc.buf 4).vis := by
+  decide +kernel
+
+/-! ### `Bytes()` aliases the internal array -/
+
+/-- 2h. **A slice obtained from `Bytes()` (binary encoder) keeps its content until `Clear` is called**: for every
+    state, every continuation without `Clear` — whatever is encoded, however the buffer grows, including aborted
+    calls — reading the slice afterwards gives the bytes it had. -/
+theorem bytes_stable_until_clear (R : Render) (S : Schema) (st : Encoder) (hbe : st.be = .ttlv) (ops : List Op)
+    (hnc : ∀ op ∈ ops, op.isClear = false) :
+    (bytesOp st).view.read (runOps R S (bytesOp st) ops).1.buf = (bytesOp st).buf.vis :=
+  (runOps_stable R S (bytesOp st).view ops (bytesOp st) (by rw [bytesOp_be]; exact hbe) hnc
+    (stable_view _)).read
+
+/-- 2i. …and NOT longer (the Go doc: "Bytes returns the internal byte array", "Clear clears the internal buffer
+    without deallocating it"): the slice returned for message 1, read after `Clear; encode message 2`, shows the
+    bytes of message 2. This is documented behaviour of the API, not a defect, but it is an ASSUMPTION of C20 that
+    callers copy or consume the result before the next `Clear` (the library's own `Marshal*` never reuse). -/
+def afterFirst : Encoder :=
+  (runOps demoR tinySchema (fresh .ttlv) [.raw [.leaf (.int 0x540001 1)] false, .bytes]).1
+def afterSecond : Encoder :=
+  (runOps demoR tinySchema afterFirst [.clear, .raw [.leaf (.int 0x540001 2)] false]).1
+
+theorem bytes_alias_overwritten :
+    afterFirst.view.snap = enc (.int 0x540001 1) ∧
+    afterFirst.view.read afterSecond.buf = enc (.int 0x540001 2) ∧
+    afterFirst.view.read afterSecond.buf ≠ afterFirst.view.snap := by
+  decide +kernel
 
 /-! ### what /repo 55f108f repaired: the OLD `xmlWriter.Clear` -/
 
-/-- 2d. **The old XML writer violated the full statement** (`oldXmlClearOp`: `Clear` began with
+/-- 2j. **The old XML writer violated the full statement** (`oldXmlClearOp`: `Clear` began with
     `panicOnErr(w.Close())`): after an aborted call `Clear` itself panicked (`xml.Encoder.Close`: "unclosed
     tag") and left the encoder closed, so the next `encode` panicked ("use of closed Encoder") where a new
     encoder succeeds; only a second `Clear` repaired it. Found by the `cache` engine on the real code as
     `cache:reuse-after-panic:xml`; fixed by dropping the `Close`. -/
 theorem old_xml_clear_after_abort :
-    (runOpsOldXml tinySchema fresh (abortedHistory ++ [.clear, .encode goodMsg {}])).2 = [false, false, false] ∧
-    (runOpsOldXml tinySchema fresh (abortedHistory ++ [.clear, .encode goodMsg {}])).1.closed = true ∧
-    (runOpsOldXml tinySchema fresh [.encode goodMsg {}]).2 = [true] ∧
-    (runOpsOldXml tinySchema fresh (abortedHistory ++ [.clear, .clear, .encode goodMsg {}])).2
+    ((runOpsOldXml demoR tinySchema (fresh .xml) ([.encode badMsg abortJunk, .clear, .encode goodMsg {}])).2.map (·.ok))
+      = [false, false, false] ∧
+    (runOpsOldXml demoR tinySchema (fresh .xml) [.encode badMsg abortJunk, .clear, .encode goodMsg {}]).1.xml.closed = true ∧
+    ((runOpsOldXml demoR tinySchema (fresh .xml) [.encode goodMsg {}]).2.map (·.ok)) = [true] ∧
+    ((runOpsOldXml demoR tinySchema (fresh .xml) [.encode badMsg abortJunk, .clear, .clear, .encode goodMsg {}]).2.map (·.ok))
       = [false, false, true, true] := by
   decide +kernel
 
-/-- 2d'. hence the full statement was FALSE of the old XML writer… -/
+/-- 2j'. hence the full statement was FALSE of the old XML writer. -/
 theorem old_xml_reuse_full_false :
-    ¬ (∀ (S : Schema) (h ops : List Op),
-        (runOpsOldXml S fresh (h ++ .clear :: ops)).1 = (runOpsOldXml S fresh ops).1) := by
+    ¬ (∀ (R : Render) (S : Schema) (h ops : List Op),
+        (runOpsOldXml R S (fresh .xml) (h ++ .clear :: ops)).2 =
+          (runOpsOldXml R S (fresh .xml) h).2 ++ ⟨true, none⟩ :: (runOpsOldXml R S (fresh .xml) ops).2) := by
   intro h
-  have := congrArg Encoder.closed (h tinySchema abortedHistory [.encode goodMsg {}])
+  have := h demoR tinySchema [.encode badMsg abortJunk] [.encode goodMsg {}]
   revert this
   decide +kernel
 
-/-- 2d''. …and held of it only for histories in which no aborted call left an element open. -/
-theorem old_xml_reuse_partial (S : Schema) (h ops : List Op) (hj : NoOpenJunk h) :
-    runOpsOldXml S fresh (h ++ .clear :: ops) =
-      ((runOpsOldXml S fresh ops).1,
-       (runOpsOldXml S fresh h).2 ++ true :: (runOpsOldXml S fresh ops).2) :=
-  reuse_gen oldXmlClearOp S fresh h ops
-    (oldXmlClearOp_ok (Or.inr (runOpsOld_clean S h fresh ⟨rfl, rfl⟩ hj).1))
-
-example : NoOpenJunk [.encode goodMsg {}, .bytes, .clear, .encode goodMsg { items := [.int 1 1] }] := by
-  intro op hop
-  simp only [List.mem_cons, List.not_mem_nil, or_false] at hop
-  rcases hop with rfl | rfl | rfl | rfl <;> trivial
-
-/-- 2e. after every `Clear` the version cell is empty. -/
-theorem clear_resets_cell (b : Backend) (st : Encoder) : (clearOp b st).1.cell = none :=
-  clearOp_cell b st
+/-- 2k. after every `Clear` the version cell is empty (`enc.extension.version = nil`). -/
+theorem clear_resets_cell (st : Encoder) : (clearOp st).1.cell = none := (clear_from_any_state st).1.2.1
 
 /-! ### the negative companion: without `Clear` the version leaks -/
 
@@ -286,14 +408,16 @@ def outBytes (r : Res EncSt) : Option Bytes :=
   | .ok (its, _) => some (encList its)
   | _ => none
 
-/-- 2f. **WITHOUT `Clear`** the version cell of the previous message leaks: after a 1.0 header the cell is
+/-- 2l. **WITHOUT `Clear`** the version cell of the previous message leaks: after a 1.0 header the cell is
     `some (1,0)`, and a following payload (no set-version field of its own) is encoded WITHOUT its 1.4 field,
     while a new — or a cleared — encoder writes it. This is what `Clear` is documented to prevent ("making the
     encoder reusable for encoding another value"): the contract, not a defect. -/
 theorem version_leaks_without_clear :
-    (runOps leakSchema .ttlv fresh [.encode header10 {}]).1.cell = some (1, 0) ∧
+    (runOps demoR leakSchema (fresh .ttlv) [.encode header10 {}]).1.cell = some (1, 0) ∧
     outBytes (encodeFrom leakSchema payload (some (1, 0))) ≠ outBytes (encodeFrom leakSchema payload none) ∧
-    (runOps leakSchema .ttlv fresh [.encode header10 {}, .clear]).1.cell = none := by
+    (runOps demoR leakSchema (fresh .ttlv) [.encode header10 {}, .encode payload {}, .bytes]).2 ≠
+      (runOps demoR leakSchema (fresh .ttlv) [.encode header10 {}, .clear, .encode payload {}, .bytes]).2.eraseIdx 1 ∧
+    (runOps demoR leakSchema (fresh .ttlv) [.encode header10 {}, .clear]).1.cell = none := by
   decide +kernel
 
 /-- …seen on the item tags: the gated field 0x540002 is dropped under the leaked cell. -/
@@ -323,26 +447,16 @@ theorem full_message_ignores_cell (tag : Nat) (v : Val) (d : Nat)
   · exact message_ignores_cell _ _ gen_request_is_message _ _
   · exact message_ignores_cell _ _ gen_response_is_message _ _
 
-/-! ## 3 — `Marshal*` / `Unmarshal*` start from nothing -/
+/-! ## 3 — `Marshal*` start from nothing
 
-/-- 3a. `UnmarshalTTLV` constructs a new Decoder (`newDecoder`: `new(extension)`): the typed decoder starts
-    with the cell `none`; the result is a function of (schema, target type, tag, bytes) and of nothing else —
-    no call made before can influence it. -/
-theorem decoder_fresh (S : Schema) (d tag : Nat) (bs : Bytes) :
-    unmarshal S d tag bs =
-      if S.dyns.length ≤ d then .err .other else unmarshalWith S (decFuel bs.length) d tag bs := by
-  unfold unmarshal; rfl
+(`UnmarshalTTLV` / `MarshalTTLV` construct a new Decoder / Encoder on every call — `newDecoder` / `newEncoder`:
+`new(extension)`. In the model `unmarshal` / `marshal` are pure functions started from the cell `none`; that a
+Lean function does not depend on earlier calls is true by construction and is NOT evidence about the code: the
+Go fact is checked by the engine (scan fact `extension-not-allocated-per-instance`, fresh-child references,
+oracle `marshal-result-aliased`). What is worth a theorem is the link between the reusable encoder and
+`marshal`.) -/
 
-/-- 3a'. … and the decoder run itself starts `decK` from the empty cell `none` (for any fuel). -/
-theorem decoder_fresh_cell (S : Schema) (fuel d tag : Nat) (bs : Bytes) :
-    unmarshalWith S fuel d tag bs = (do
-      let c ← Cur.start bs
-      let dy := S.dyn d
-      let k := match dy.kind with | .ptr k' => k' | k' => k'
-      let (x, _, _) ← decK S fuel k (if tag = 0 then dy.defTag else tag) c none
-      pure (match dy.kind with | .ptr _ => Val.ptr (some x) | _ => x)) := rfl
-
-/-- 3b. `MarshalTTLV` constructs a new Encoder: it is `encode` from the cell `none` followed by `Bytes`. -/
+/-- 3a. `MarshalTTLV(m)` is the typed encoding from the EMPTY cell followed by the binary rendering. -/
 theorem marshal_fresh (S : Schema) (d tag : Nat) (v : Val) :
     marshal S d tag v =
       (match encodeFrom S ⟨d, tag, v⟩ none with
@@ -351,11 +465,12 @@ theorem marshal_fresh (S : Schema) (d tag : Nat) (v : Val) :
        | .panic msg => .panic msg) :=
   marshal_eq_encodeFrom S d tag v
 
-/-- 3c. and that is what a new encoder object does: `Bytes(new; encode m) = MarshalTTLV(m)`. -/
-theorem fresh_encoder_is_marshal (S : Schema) (b : Backend) (m : Msg) (j : Junk) (bs : Bytes)
+/-- 3b. and that is what a new encoder object yields: `new; encode m; Bytes()` returns `MarshalTTLV(m)` — through
+    the writer-level model (appends, placeholder, patch), not by definition. -/
+theorem fresh_encoder_is_marshal (R : Render) (S : Schema) (m : Msg) (j : Junk) (bs : Bytes)
     (h : marshal S m.d m.tag m.v = .ok bs) :
-    (runOps S b fresh [.encode m j]).1.bytes = bs ∧ (runOps S b fresh [.encode m j]).2 = [true] :=
-  fresh_encode_bytes S b m j bs h
+    (runOps R S (fresh .ttlv) [.encode m j, .bytes]).2 = [⟨true, none⟩, ⟨true, some bs⟩] :=
+  fresh_encode_bytes R S m j bs h
 
 /-! ## 4 — the cell is shared inside a message, and only there -/
 
@@ -377,9 +492,9 @@ theorem nested_shares_cell (S : Schema) (N : Nat)
         = .ok ([.struct fh.tag hitems], some pv.asVer) ∧
       encFields S (fuel + 1) [fb] [bv] (some pv.asVer) = .ok (b, some pv.asVer) ∧
       items = .struct fh.tag hitems :: b ∧ cell' = some pv.asVer) ∧
-    (∀ (b : Backend) (st : Encoder), (clearOp b st).1.cell = none) :=
+    (∀ (st : Encoder), (clearOp st).1.cell = none) :=
   ⟨message_encode_cell S N hH hM _ (S.svFreeDyn_sound N) d hd htag fuel pv hs bv cell items cell' hv h,
-   clearOp_cell⟩
+   clear_resets_cell⟩
 
 /-- the side conditions of 4 hold of the regenerated schema (same facts as C05 3e). -/
 theorem gen_no_nested_set_version : Gen.schema.noNestedSetVersion 128 = true := by decide +kernel
